@@ -62,6 +62,13 @@ def run(chk):
     chk.call(r4_r5_derived, chk)
     chk.call(r6_ensemble_copy, chk)
     chk.call(r7_ctor_forwarding, chk)
+    # R8: a copy equals its source "in every observable field (including ... parents and indices)": every site that puts an
+    # atom or bond into a structure's containers sets its parent - the clause C05.R4 decides (copy constructors, join and
+    # concatenate insert through the same sites).
+    from . import c05
+
+    cls = {k: prog.cls(v) for k, v in c05.CHAIN.items()}
+    chk.borrow("C06.R8", c05.r4_parent, chk, cls)
 
 
 def r1_evolve(chk):
